@@ -12,7 +12,7 @@ NAMESPACE = 'Props.C03'
 LEAN_CONE = ['PncModel.Arr', 'PncModel.File', 'PncProofs.ArrLemmas', 'PncProofs.FiberLemmas', 'PncProofs.C03']
 LEMMA_FILES = ['PncProofs/FiberLemmas.lean']
 REQUIRED_THEOREMS = ['apply_fiberwise', 'fn_uniform', 'apply_shape', 'reducers_exclude_masked', 'untouched']
-RULE = ('random files (as C02; float64 and int32 variables, masked and unmasked, coordinate variables) x 1-3 '
+RULE = ('[dict form] whole-fibre callables also in the documented dictionary form func1d + keyword arguments; random files (as C02; float64 and int32 variables, masked and unmasked, coordinate variables) x 1-3 '
         'dimension functions in random keyword order: named reducers mean/sum/min/max/var (array methods, '
         'keepdims) and callables np.diff, x[::2], np.cumsum, x[::-1], np.convolve(x,[1,1],"valid") (the last '
         'only on unmasked data); std and float32 variables run through the oracle only (tolerance); the string front ends '
@@ -114,6 +114,10 @@ FIBREFN = {'anom': (lambda x: x - x.mean()), 'top2': (lambda x: np.sort(x)[-2:])
            'same3': (lambda x: np.convolve(x, [0.25, 0.5, 0.25], mode='same'))}
 
 
+def _scaled(x, fn=None, scale=1.0):
+    return FIBREFN[fn](x) * scale
+
+
 def _direct_case(rng):
     """files the operation model does not build, judged directly against numpy on the arrays the source file holds:
     (ioapi) IOAPI files (in memory, on disk, boundary, with extra variables) incl. length-1 dimensions and reducers that are
@@ -149,7 +153,9 @@ def _direct_case(rng):
             names = [d[0] for d in spec['dims']]
             return dict(kind='direct', sub=k, fns=[], spec=spec, dim=rng.choice([n for n in names if n in ('lev', 'n')]),
                         fn=rng.choice(NP_REDUCERS), how='eval')
-        return dict(kind='direct', sub=k, fns=[], spec=spec, dim=rng.choice(names), fn=rng.choice(['anom', 'top2', 'norm', 'same3']), how='eval')
+        # dictform: the documented dictionary form of a dimension's function, func1d plus keyword arguments (here a scale)
+        return dict(kind='direct', sub=k, fns=[], spec=spec, dim=rng.choice(names), fn=rng.choice(['anom', 'top2', 'norm', 'same3']), how='eval',
+                    dictform=rng.choice([None, None, 2.0, -0.5]))
     if k == 'ioapi':
         from . import c10
         src = c10._src(rng)
@@ -210,7 +216,10 @@ def _impl_direct(case):
             elif case['sub'] == 'callable':
                 f = pfile.build(case['spec'])
                 before = _snap(f)
-                g = f.applyAlongDimensions(**{case['dim']: FIBREFN[case['fn']]})
+                if case.get('dictform'):
+                    g = f.applyAlongDimensions(**{case['dim']: dict(func1d=_scaled, fn=case['fn'], scale=case['dictform'])})
+                else:
+                    g = f.applyAlongDimensions(**{case['dim']: FIBREFN[case['fn']]})
             elif case['sub'] == 'prefixdim':
                 from PseudoNetCDF.core._functions import reduce_dim
                 f = pfile.build(case['spec'])
@@ -245,14 +254,14 @@ def _impl_direct(case):
             os.remove(path)
 
 
-def _along(arr, ax, fn):
+def _along(arr, ax, fn, scale=None):
     """numpy's answer for one axis"""
     from . import c10
     with np.errstate(all='ignore'):
         if fn in NP_REDUCERS:
             return getattr(np.ma, fn)(arr, axis=ax, keepdims=True)
         if fn in FIBREFN:
-            return np.apply_along_axis(FIBREFN[fn], ax, np.ma.getdata(arr))
+            return np.apply_along_axis(FIBREFN[fn], ax, np.ma.getdata(arr)) * (scale or 1.0)
         f_ = c10.FNS.get(fn) or PYFN[fn]
         m = np.ma.getmaskarray(arr)
         if fn == 'diff':
@@ -290,7 +299,7 @@ def _oracle_direct(case, res):
             want = arr
             # every axis that carries the dimension (a covariance matrix COV(x, x) has two), last axis first
             for ax in [i for i, dn in enumerate(b['dims']) if dn == dim][::-1]:
-                want = _along(want, ax, fn)
+                want = _along(want, ax, fn, case.get('dictform'))
         else:
             want = arr
         wm = np.ma.getmaskarray(want).ravel()
